@@ -503,7 +503,7 @@ func TestC20_StateMachine(t *testing.T) {
 	c := harness.New(t, "C20", "state-machine",
 		"random histories (rapid state machine, length up to ~40) after a registry reset: Register{Str,Arr,Int,Float,Bool}(name) with name in {f, g, a built-in name of that type, a built-in name of another type, (arrays) a function returning an unsupported kind}; calls on receivers of the five types as literals or variables with 0..3 arguments of any kind incl. nested arrays/objects and nil, directly and through a loaded template; LoadTemplates at any point. Model: registry type -> name -> id of the first registration; Register errors iff the pair is present and never replaces; a call yields the built-in (custom closure not invoked) if one exists, else the registered closure must have received the receiver and arguments as the plain Go values (int, int64, float64, string, bool, nil, []any, map[string]any recursively; empty array = length 0) and its result must render like the same Go value passed as data (also by index/member access into returned []any with nested maps), else an error naming the function and the receiver type. Non-trivial: one name registered on >= 2 types, a rejected duplicate, calls before and after LoadTemplates. Distinct by hash of the history.")
 	defer c.Finish()
-	runRapid(t, c, 1500, 8000, func(rt *rapid.T) {
+	runRapid(t, c, 1500, 24000, func(rt *rapid.T) {
 		m := newRegModel()
 		var hist []regOp
 		step := func(op regOp) {
